@@ -91,7 +91,10 @@ def scan_harnesses(path):
                 if item:
                     k, v = item.rsplit("=", 1)
                     uws.append((k.strip(), int(v)))
-        res.append(dict(name=name, should_panic="kani::should_panic" in attrs, unwindset=uws,
+        cargs = []
+        for cm in re.finditer(r'verif-cbmc-args:\s*([^"]*)"', attrs):
+            cargs += cm.group(1).split()
+        res.append(dict(name=name, should_panic="kani::should_panic" in attrs, unwindset=uws, cbmc_args=cargs,
                         unwind=int(uw.group(1)) if uw else None,
                         stubs=[s.strip() for s in stubs], cfg=cfgs))
     return res
